@@ -150,7 +150,8 @@ def sensitivity(args):
         mp = os.path.join(d, 'meta.json')
         if os.path.exists(mp):
             meta = json.load(open(mp))
-        prop = meta.get('property', name.split('-')[0])
+        prop = meta.get('caught_by_check') or \
+            meta.get('property', name.split('-')[0])
         wt = '/tmp/senswt_{}'.format(os.getpid())
         out = '/tmp/sensout_{}'.format(os.getpid())
         subprocess.run(['git', '-C', core.REPO, 'worktree', 'add', '-q',
